@@ -115,6 +115,19 @@ Theorem C05_holds_finite : forall eng a x lo hi k nb o,
   hist_ok x lo hi (p_dmin (o_params o)) (p_bsize (o_params o)) (p_nbin (o_params o)) (o_hist o) (o_rev o).
 Proof. exact api_holds_finite. Qed.
 
+(* ... and also when the bin size is zero (nbin mode on constant data: nothing is counted):
+   spec_ok = params_ok or binsize = 0.  Together: every finite input whose max - min does not overflow. *)
+Theorem C05_holds_finite_all : forall eng a x lo hi k nb o,
+  forallb finite_f x = true -> finite_opt lo = true -> finite_opt hi = true ->
+  histogram_api eng a x lo hi k nb = Ok o -> spec_ok (o_params o) = true ->
+  hist_ok x lo hi (p_dmin (o_params o)) (p_bsize (o_params o)) (p_nbin (o_params o)) (o_hist o) (o_rev o).
+Proof. exact api_holds_finite_all. Qed.
+
+(* rev=False: the loop without reverse indices returns the same counts (both engines) *)
+Theorem C05_norev_counts : forall bn nbin s,
+  hist_norev bn nbin s = fst (chist bn nbin s) /\ hist_norev bn nbin s = fst (pyhist bn nbin s).
+Proof. exact hist_norev_chist. Qed.
+
 Theorem C05_api_engines_equal : forall a x lo hi k nb,
   histogram_api EngC a x lo hi k nb = histogram_api EngPy a x lo hi k nb.
 Proof. exact histogram_api_engines_equal. Qed.
@@ -166,3 +179,10 @@ Example C05_finite_nonvacuous :
 Proof.
   split; eexists; (split; [vm_compute; reflexivity|]); vm_compute; repeat split; reflexivity.
 Qed.
+
+(* Non-vacuity of the zero-bin-size branch: constant data in nbin mode, nothing is counted. *)
+Example C05_zero_binsize_nonvacuous :
+  exists o, histogram_api EngC ApiHistogram [3; 3; 3]%float None None KwOmit (Some 2) = Ok o
+            /\ params_ok (o_params o) = false /\ spec_ok (o_params o) = true
+            /\ o_hist o = [0; 0] /\ o_rev o = [3; 3; 3; 0; 1; 2].
+Proof. eexists. split; [vm_compute; reflexivity|]. vm_compute. repeat split; reflexivity. Qed.
